@@ -199,7 +199,7 @@ pub fn check(plan: &Plan, rec: &RunRecord, refs: &mut References) -> Checked {
                     ("code", want.code.clone(), got.code.clone())
                 } else if got.sig != want.sig {
                     ("sig", want.sig.replace(' ', "\n"), got.sig.replace(' ', "\n"))
-                } else if got.diags != want.diags {
+                } else if got.diags != want.diags && !plan.handler_shared {
                     ("diags", want.diags.join("\n"), got.diags.join("\n"))
                 } else {
                     continue;
